@@ -31,7 +31,9 @@
    "ns-typeconf" (an edit carrying another event type than the stored one bypassed
    checkNamespace and renamed a namespace), "ns-createflag" (a create-flagged request on an
    existing builtin namespace became an edit without the rename rule).  The repository
-   carries the repairs.                                                               *)
+   carries the repairs.  "last-id-from-max" is a deviation that was never in the repository
+   (an independently seeded change): the last created id is taken from MAX(id) of the
+   mappings table, which drops when the newest mappings are deleted.                   *)
 EXTENDS Integers, Sequences, FiniteSets, TLC, Json
 
 CONSTANTS
@@ -52,6 +54,8 @@ CONSTANTS
     MaxBudget, StepSec, BudgetBonus, GlobalBudget, MaxResetLimit,   \* Options / maxResetLimit
     U32Q, U32R,     \* 2^32 = U32Q * StepSec + U32R   (uint32 wrap in calcBudget)
     Ticks, Clock0,  \* clock increments (the clock never steps back: "clock progression")
+    DelMax,         \* largest number of ids in one DeleteMappings request
+    DelNewestOnly,  \* TRUE: only requests that delete the newest ids (an upper set of the present ids)
     MaxOps, MaxSnaps, MaxClock,
     ExportFrom,     \* behaviours shorter than this are not printed by Export
     WithPost,       \* TRUE: every step of `hist` carries the projected state (behaviour export)
@@ -347,7 +351,7 @@ Race(q1, q2) ==
                                          post |-> Post(x.db, clock, snaps)]])
 
 GetOrCreate(metric, key) ==
-    LET r == GetOrCreateF(db, lastCreated, clock, metric, key)
+    LET r == GetOrCreateF(db, IF "last-id-from-max" \in Bugs THEN MaxMapId(db) ELSE lastCreated, clock, metric, key)
         made == r.rep.kind = "created"
     IN /\ db' = r.db
        /\ binlog' = Log(r.ev)
@@ -434,7 +438,10 @@ Next == /\ nops < MaxOps
            \/ \E i \in DOMAIN db.ent : \E q1 \in RaceReqs(i), q2 \in RaceReqs(i) : q1 # q2 /\ Race(q1, q2)
            \/ \E m \in Metrics, k \in Keys : GetOrCreate(m, k)
            \/ \E a \in PutArgs : PutMapping(a[1], a[2])
-           \/ \E ids \in (SUBSET (1..MaxMapId(db))) \ {{}} : Cardinality(ids) <= 2 /\ DeleteMappings(ids)
+           \/ \E ids \in (SUBSET (1..MaxMapId(db))) \ {{}} :
+                 /\ Cardinality(ids) <= DelMax
+                 /\ (DelNewestOnly => \A i \in ids : HasId(db, i) /\ \A p \in db.maps : p.id > i => p.id \in ids)
+                 /\ DeleteMappings(ids)
            \/ \E m \in Metrics, l \in ResetLimits : ResetFlood(m, l)
            \/ \E ms \in BootSets : PutBootstrap(ms)
            \/ \E t \in Ticks : Advance(t)
